@@ -436,7 +436,7 @@ def run(ctx):
     ctx.extra["spec_behaviours_not_reproduced"] = drift   # client-mode ones hitting a defect; each is also rejected by TLC below
     ctx.note_traces(traces)
     ctx.log("recorded %d real transfers" % len(traces))
-    rej = ctx.validate("SmtpDataTrace", traces, shard_size=ctx.pick(400, 3000))
+    rej = ctx.validate("SmtpDataTrace", traces, shard_size=ctx.pick(400, 1000))
     report(ctx, traces, rej)
     ctx.extra["rejected_executions"] = len(rej)
     bad = {x.idx for x in rej}
